@@ -3,6 +3,7 @@
 inspired by:
 https://github.com/sutoiku/formula.js/blob/master/lib/math-trig.js
 """
+import unicodedata
 import math
 from functools import reduce
 import operator
@@ -96,7 +97,18 @@ def PROPER(text):
         text = ''
     if not isinstance(text, string_types):
         text = str(text)
-    return text.title()
+    # str.title() takes a combining mark or modifier letter for the end of a word; the capital forms of some letters
+    # are written with one (dotted capital I in lower case is i + dot above), so that a second
+    # PROPER capitalised the letter after it
+    out = []
+    in_word = False
+    for ch in text:
+        if unicodedata.category(ch) in ('Mn', 'Mc', 'Me', 'Lm'):
+            out.append(ch)  # a mark or modifier letter belongs to the letter before it
+            continue
+        out.append(ch.lower() if in_word else ch.title())
+        in_word = ch.lower() != ch or ch.upper() != ch
+    return ''.join(out)
 
 
 @dispatcher.register_for('SUBSTITUTE')
